@@ -19,6 +19,24 @@ SPACES = {
     "k4only": dict(nts=("S", "A"), ts=("a", "b"), r=2, k=4, kmin=4),
 }
 WS = " "
+# medium grammars in which GLR has several heads when the first error
+# occurs (reduce/reduce conflict resolved by a later token; lookaheads that
+# are legal only because of LALR state merging), so that heads recover
+# differently and a second error follows without a shift in between
+FIXED = [
+    [("S", ("X", "c", "q")), ("S", ("Y", "C", "r")), ("S", ("m", "C", "t")),
+     ("X", ("k",)), ("Y", ("k",)), ("C", ("c",))],
+    [("S", ("X", "c", "q")), ("S", ("Y", "C", "r")), ("S", ("Y", "C", "r", "S")),
+     ("X", ("k",)), ("Y", ("k",)), ("C", ("c",)), ("C", ("c", "c"))],
+]
+FIXED_NTS = ("S", "X", "Y", "C")
+spaces.LEXMAPS["MK"] = {t: ("s", t) for t in "kcqrmt"}
+
+
+def space_list(name):
+    if name == "fixed":
+        return [tuple(g) for g in FIXED]
+    return spaces.grammars(**SPACES[name])
 
 
 def strat_skip_one(context, error, default):
@@ -78,7 +96,9 @@ def plan(tier, seed):
                      alpha="abx", nmax=4, win=(seed, 4)),
                 dict(space="k3", lexmap="M0",
                      strategies=["default", "skip-one"],
-                     alpha="abx ", nmax=4, win=(seed, 8), layout_rule=True)]
+                     alpha="abx ", nmax=4, win=(seed, 8), layout_rule=True),
+                dict(space="fixed", lexmap="MK", strategies=["default"],
+                     alpha="kcqrt$", nmax=5)]
     return [dict(space="k3", lexmap="M0", strategies=["default"],
                  alpha="abx ", nmax=5),
             dict(space="k3", lexmap="M0",
@@ -91,13 +111,15 @@ def plan(tier, seed):
             dict(space="k4only", lexmap="M0", strategies=["default"],
                  alpha="abx ", nmax=4, win=(0, 4)),
             dict(space="k3", lexmap="M0", strategies=STRATEGIES,
-                 alpha="abx ", nmax=4, layout_rule=True)]
+                 alpha="abx ", nmax=4, layout_rule=True),
+            dict(space="fixed", lexmap="MK", strategies=STRATEGIES,
+                 alpha="kcqrmt$", nmax=5)]
 
 
 def units(tier, seed):
     out = []
     for row in plan(tier, seed):
-        n = len(spaces.grammars(**SPACES[row["space"]]))
+        n = len(space_list(row["space"]))
         win = row.get("win")
         idxs = list(range(n)) if win is None else list(
             spaces.window(n, win[0], win[1]))
@@ -156,9 +178,8 @@ def tree_valid(root, s, start, matchers):
 
 
 def run_unit(u):
-    sp = SPACES[u["space"]]
-    nts = sp["nts"]
-    gs = spaces.grammars(**sp)
+    nts = FIXED_NTS if u["space"] == "fixed" else SPACES[u["space"]]["nts"]
+    gs = space_list(u["space"])
     lm = u["lexmap"]
     lexmap = spaces.LEXMAPS[lm]
     inputs = spaces.strings(u["alpha"], u["nmax"])
